@@ -58,6 +58,10 @@ add("C30", "genrun", "generated multi-package worlds x {sync, --async=all} -> Mo
     "6k generated worlds per quick run plus the corpus, both option variants: every generated moon.pkg.json is parsed; aliases must be unique per package with one alias per imported package, project-internal import paths must name generated package directories, every `@alias.` used in a package's sources must be declared, kebab-case WIT names must appear unchanged in package paths.",
     "MoonBit sources are not compiled (no toolchain): qualifiers are extracted with a regex after stripping strings/comments; external `moonbitlang/core/...` paths are assumed to exist.")
 
+add("C17", "genrun", "proptest over --async directive lists; reference model (first matching directive, else WIT default) vs AsyncFilterSet and vs async-ABI names found in Rust/C/MoonBit output",
+    "20k directive lists per quick run against a fixed world that has every function kind in both directions (same name imported and exported, interface imported and exported, inline interfaces, resource constructor/method/static, sync and async): is_async for every (function, direction), Display round trip, ensure_all_used; plus 1.5k generator runs (Rust, C, MoonBit; separate or comma-joined --async options) where `[async-lower]..`/`[async-lift]..` names must appear exactly for the selected functions and Rust must reject exactly the lists with a directive that matches nothing.",
+    "One fixed world (directive semantics do not depend on type shapes); a directive that is always shadowed is not judged for `unused`; generator output is inspected textually for the canonical async names.")
+
 PENDING_REASON = "check not built yet in this session (planned in DESIGN.md §4); not claimed until it exists and passes its sensitivity runs"
 
 def main():
@@ -109,7 +113,7 @@ def main():
 NA = {}
 HOOK_COMMITS = ["b827c12", "a6f2383"]
 ENGINES = [
-    {"name": "genrun", "path": "harness/genrun", "serves_properties": ["C15", "C16", "C29", "C30", "C33"], "kind_free_text": "tape-driven constructive WIT world generator (harness/witgen) + in-process drivers for all eight generators with panic capture and output collection"},
+    {"name": "genrun", "path": "harness/genrun", "serves_properties": ["C15", "C16", "C17", "C29", "C30", "C33"], "kind_free_text": "tape-driven constructive WIT world generator (harness/witgen) + in-process drivers for all eight generators with panic capture and output collection"},
     {"name": "abisim", "path": "harness/abisim", "serves_properties": ["C01", "C02", "C03", "C04"], "kind_free_text": "recording wit_bindgen_core::abi::Bindgen + instruction interpreter + independent reference canonical ABI (harness/refabi), driven by proptest"},
     {"name": "rtpbt", "path": "harness/rtpbt", "serves_properties": ["C24"], "kind_free_text": "proptest histories against wit_bindgen::rt allocation entry points with a tracking global allocator"},
     {"name": "corepbt", "path": "harness/corepbt", "serves_properties": ["C17", "C25", "C26", "C27", "C28", "C34"], "kind_free_text": "proptest harnesses over public items of wit-bindgen-core / wit-bindgen rt / wit-bindgen-test"},
